@@ -131,22 +131,44 @@ let () =
       Printf.printf "M %s %s\n" id (String.concat " " mt);
       Printf.printf "S %s %s\n" id (String.concat " " st)
     | id :: "sin" :: idlen :: wr :: reqs ->
+      let mode = if wr.[0] = 'L' then 1 else int_of_string wr in     (* L<n>: the write queue limit is assumed not to be hit *)
+      let idl = nat_of_int (int_of_string idlen) in
+      let show (r : sin_res) defer =
+        let seen = (match r.si_seen with
+          | None -> "-"
+          | Some ((v, rc), p) -> Printf.sprintf "%s:%d:%s" (hex_of_n v) (if rc then 1 else 0) (hex_of_bytes p)) in
+        let got = (match r.si_seen with Some ((_, rc), _) -> rc | None -> false) in
+        let rl = (if defer && got then ["hN"] else []) @ (if got then List.map (fun z -> string_of_int (int_of_z z)) r.si_reps else []) in
+        let reps = if rl = [] then "-" else String.concat "," rl in
+        let wire = if r.si_wire = [] then "-" else String.concat ";" (List.map (fun f -> if f = [] then "e" else hex_of_bytes f) r.si_wire) in
+        Printf.sprintf "%d|%s|%s|%s" (int_of_z r.si_ret) seen reps wire in
       let rec go toks = match toks with
         | "req" :: m :: nrep :: r1 :: r2 :: code :: rest ->
           let reps = (match int_of_string nrep with 0 -> [] | 1 -> [pay_of r1] | _ -> [pay_of r1; pay_of r2]) in
-          let r = sin_request (nat_of_int (int_of_string idlen)) (wr = "1") (bytes_of_hex m) reps (z_of_int (int_of_string code)) in
-          let seen = (match r.si_seen with
-            | None -> "-"
-            | Some ((v, rc), p) -> Printf.sprintf "%s:%d:%s" (hex_of_n v) (if rc then 1 else 0) (hex_of_bytes p)) in
-          let reps = if r.si_reps = [] then "-" else String.concat "," (List.map (fun z -> string_of_int (int_of_z z)) r.si_reps) in
-          let wire = if r.si_wire = [] then "-" else String.concat ";" (List.map (fun f -> if f = [] then "e" else hex_of_bytes f) r.si_wire) in
-          Printf.sprintf "%d|%s|%s|%s" (int_of_z r.si_ret) seen reps wire :: go rest
+          show (sin_request2 idl (nat_of_int mode) (bytes_of_hex m) reps (z_of_int (int_of_string code))) false :: go rest
+        | "rqd" :: m :: r1 :: code :: rest ->
+          show (sin_request2 idl (nat_of_int mode) (bytes_of_hex m) [pay_of r1] (z_of_int (int_of_string code))) true :: go rest
+        | "rq0" :: m :: rest -> show sin_skip false :: go rest
+        | "scv" :: t :: rest ->
+          let (ret, part) = sin_conv (match t with "in" -> SIn | "fmt" -> SFmt | "meta" -> SMeta | "sock" -> SSock | _ -> SBad) in
+          let parts = [| "none"; "in"; "obj"; "out"; "log"; "fmt"; "fd"; "nofd" |] in
+          (match ret with
+           | None -> "vme:" ^ parts.(int_of_nat part)
+           | Some z when int_of_z z = 1 -> "vsock:" ^ parts.(int_of_nat part)
+           | Some z -> "verr:" ^ parts.(int_of_nat part) ^ string_of_int (int_of_z z)) :: go rest
+        | "srf" :: rest -> "r2:noclone" :: go rest
         | _ -> [] in
       let toks = String.concat " " (go reqs) in
       Printf.printf "M %s %s\n" id toks;
       Printf.printf "S %s %s\n" id toks
+    | id :: "sinx" :: idlen :: mode :: code :: _ ->
+      let ok = sin_create_ok (nat_of_int (if idlen = "badfd" then 2 else int_of_string idlen)) (n_of_hex mode)
+                 (nat_of_int (int_of_string code)) (idlen <> "badfd") in
+      Printf.printf "M %s %s\n" id (if ok then "ok" else "null");
+      Printf.printf "S %s %s\n" id (if ok then "ok" else "null")
     | id :: "con" :: mode :: idl :: ops ->
       let dg = (mode = "d") in
+      let pay_of s = if s = "null" then None else Some (bytes_of_hex s) in
       let idl = nat_of_int (int_of_string idl) in
       let rec parse toks = match toks with
         | [] -> []
@@ -163,6 +185,27 @@ let () =
         | "pe" :: r -> CPe :: parse r
         | "sy" :: r -> CSy :: parse r
         | "cl" :: r -> CCl :: parse r
+        | "a0" :: p :: r -> CAw0 (bytes_of_hex p) :: parse r
+        | "rf" :: r -> CRf :: parse r
+        | "no" :: r -> CNo :: parse r
+        | "nh" :: r -> CNh :: parse r
+        | "lg" :: ty :: tx :: r ->
+          (* mpt_log(logger, "hs", ty, "%s", text) -> mpt_output_vlog: {Output, ty | 0x80, [SOH]} "hs" STX text ETX *)
+          let ty = int_of_string ty land 0x7f in
+          (* mpt_log: LogFunction (SOH behind the header) unless the type is 0 or carries MPT_LOG(File) = 0x20 *)
+          let hdr = [0; ty lor 0x80] @ (if ty <> 0 && ty land 0x20 = 0 then [1] else []) in
+          let b = List.map (fun i -> n_of_hex (Printf.sprintf "%x" i)) (hdr @ [0x68; 0x73; 2]) in
+          CLg (b @ bytes_of_hex tx @ [n_of_hex "3"]) :: parse r
+        | ("as" | "sp" | "op" as o) :: k :: r ->
+          let kind = (match k with "d" | "D" -> KDgram | "a" | "s" | "S" -> KStream | _ -> KNone) in
+          let how = (match o, k with
+            | "as", _ -> HAssign | "op", _ -> HOpen
+            | _, ("D" | "S") -> HPropStr | _, "x" -> HPropStr | _, _ -> HPropSock) in
+          CRs (kind, how) :: parse r
+        | "cv" :: t :: r ->
+          CCv (match t with "in" -> TIn | "fmt" -> TFmt | "meta" -> TMeta | "sock" -> TSock | "obj" -> TObj
+                          | "out" -> TOut | "log" -> TLog | _ -> TBad) :: parse r
+        | "gp" :: n :: r -> CGp (n = "color") :: parse r
         | t :: _ -> failwith ("bad con op " ^ t) in
       let ops = parse ops in
       let zs z = string_of_int (int_of_z z) in
@@ -181,10 +224,23 @@ let () =
         | RPe z -> "e" ^ zs z
         | RSy z -> "s" ^ zs z
         | RCl -> "c"
+        | RRf n -> "r" ^ string_of_int (int_of_nat n)
+        | RNx None -> "x*"
+        | RNx (Some z) -> "x" ^ zs z
+        | RLg z -> "l" ^ zs z
+        | RRs z -> "g" ^ zs z
+        | RCv (ret, part) ->
+          let parts = [| "none"; "in"; "obj"; "out"; "log"; "fmt"; "fd"; "nofd" |] in
+          (match ret with
+           | None -> "vme:" ^ parts.(int_of_nat part)
+           | Some z when int_of_z z = 1 -> "vsock:" ^ parts.(int_of_nat part)
+           | Some z -> "verr:" ^ parts.(int_of_nat part) ^ zs z)
+        | RGp (z, n) -> Printf.sprintf "p%s:%s" (zs z) (if int_of_nat n = 1 then "color" else "output")
         | RX -> "X" in
       let show_res (r : cres) =
-        let wc = if r.r_wcalls = [] then "-" else String.concat "," (List.map (fun (t, p) ->
-          Printf.sprintf "W%d=%s" (int_of_nat t) (show_pay p)) r.r_wcalls) in
+        let wcs = List.filter (fun (t, _) -> int_of_nat t <> 0) r.r_wcalls in     (* tag 0 = log_reply: not observable *)
+        let wc = if wcs = [] then "-" else String.concat "," (List.map (fun (t, p) ->
+          Printf.sprintf "W%d=%s" (int_of_nat t) (show_pay p)) wcs) in
         let ws = if r.r_wire = [] then "-" else String.concat ";" (List.map (fun f -> if f = [] then "e" else hex_of_bytes f) r.r_wire) in
         (if r.r_fault then "F" else show_cret r.r_ret) ^ "|" ^ wc ^ "|" ^ ws in
       let show_state closed has v tab cid mech =
